@@ -1,5 +1,6 @@
 import HcipyVerif.Model.Proto
 import HcipyVerif.Model.Aperture
+import HcipyVerif.Model.AperturePupil
 
 /-!
 Line-protocol front end of the C12 model.
@@ -13,6 +14,11 @@ C12 regsub sep <tol> <xs> <ys> <even> <r> <a> <dirs> <cx> <cy>
         →  ok some <y0> <x0> <nr> <nc> <f_sub ravelled> <near flags> <edge 0/1>  |  ok none <edge 0/1>
 C12 regsub pts <tol> <xs> <ys> <even> <r> <a> <dirs> <cx> <cy>
         →  ok <mask> <f_sub> <near flags of the masked points> <near-the-box flags of all points>
+C12 hexpos <rings> <pitch> <ap> <nsel> <sel…>      →  ok <[x0,y0,x1,y1,…] of the kept segment centres>
+C12 hexpupil sep|pts|polar <tol> <xs> <ys> <segment|-> <rings> <pitch> <ap> <loop 0/1> <hw> <obs|-> <spiders [px,py,c,s,…]> <trs [..] | s:t> <nsel> <sel…> <segment shape>
+        →  as `eval` (the pupil or the i-th returned segment)  |  err trs-length <#positions>  |  err no-segment <#positions>
+C12 hicat sep|pts|polar <tol> <xs> <ys> <segment|-> <gaps 0/1> <hw> <spiders> <pitchA> <apA> <pitchB> <apB> <segA shape> <segB shape> <central shape>
+   sel ::= nonzero S | notpos S | cpos S | pos S | strips [a,b,c,…]
 C12 keck sep|pts|polar …      C12 vlt sep|pts|polar <tol> <xs> <ys> <segment|-> <ro> <ri> <spiders> <start/end points> <m3>
 ```
 `sep`: `xs`, `ys` are the axes of a separated grid (the fast code path is run);
@@ -141,16 +147,17 @@ def parseWhole? (toks : List String) : Option Shape :=
   | some (s, []) => some s
   | _ => none
 
-def evalResp (st : St) (mode : String) (tol : Rat) (xs ys : List Rat) (s : Shape) : St × String :=
+def evalResp (st : St) (mode : String) (tol : Rat) (xs ys : List Rat) (s : Shape) (selfCheck : Bool := true) : St × String :=
+  let flag := fun (b : Unit → Bool) => if selfCheck then showBool (b ()) else "-"
   if mode == "sep" then
     let pts := sepPoints xs ys
     let vals := evalSep s xs ys
-    (st, s!"ok {showRatList vals} {showList showBool (pts.map (near tol s))} {showBool (vals == pts.map (val s))}")
+    (st, s!"ok {showRatList vals} {showList showBool (pts.map (near tol s))} {flag fun _ => vals == pts.map (val s)}")
   else if mode == "pts" then
     if xs.length != ys.length then (st, "bad-op") else
     let pts := xs.zip ys
     let vals := evalPts s pts
-    (st, s!"ok {showRatList vals} {showList showBool (pts.map (near tol s))} {showBool (vals == pts.map (val s))}")
+    (st, s!"ok {showRatList vals} {showList showBool (pts.map (near tol s))} {flag fun _ => vals == pts.map (val s)}")
   else if mode == "polar" then
     match pairs? ys with
     | some dirs =>
@@ -183,6 +190,56 @@ def fours? : List Rat → Option (List (Pt × Pt))
 
 def parseBool? (s : String) : Option Bool :=
   if s == "1" then some true else if s == "0" then some false else none
+
+
+def quads? : List Rat → Option (List SpiderI)
+  | [] => some []
+  | a :: b :: c :: d :: t => (quads? t).map ((a, b, c, d) :: ·)
+  | _ => none
+
+def triplesR? : List Rat → Option (List (Rat × Rat × Rat))
+  | [] => some []
+  | a :: b :: c :: t => (triplesR? t).map ((a, b, c) :: ·)
+  | _ => none
+
+/-- `n` subset criteria one after the other -/
+def parseSels? : Nat → List String → Option (List Sel × List String)
+  | 0, rest => some ([], rest)
+  | n + 1, "strips" :: l :: rest => do
+    let t ← (parseRatList? l).bind triplesR?
+    let (ss, rest) ← parseSels? n rest
+    pure (.strips t :: ss, rest)
+  | n + 1, kind :: rest => do
+    let (s, rest) ← parseShape? 1000 rest
+    let sel ← (if kind == "nonzero" then some (Sel.nonzero s) else if kind == "notpos" then some (Sel.notPos s)
+      else if kind == "cpos" then some (Sel.complPos s) else if kind == "pos" then some (Sel.pos s) else none)
+    let (ss, rest) ← parseSels? n rest
+    pure (sel :: ss, rest)
+  | _ + 1, [] => none
+
+def flatPts (l : List Pt) : List Rat := l.flatMap fun p => [p.1, p.2]
+
+/-- transmissions: a list (one per kept segment) or `s:<t>` (a scalar, broadcast) -/
+def parseTrs? (tok : String) (n : Nat) : Option (Except Nat (List Rat)) :=
+  if tok.startsWith "s:" then (parseRat? (tok.drop 2).toString).map fun t => .ok (List.replicate n t)
+  else (parseRatList? tok).map fun l => if l.length = n then .ok l else .error n
+
+def parseShapes3? (toks : List String) : Option (Shape × Shape × Shape) := do
+  let (a, rest) ← parseShape? 1000 toks
+  let (b, rest) ← parseShape? 1000 rest
+  let (c, rest) ← parseShape? 1000 rest
+  if rest.isEmpty then pure (a, b, c) else none
+
+def pickSegment (st : St) (mode : String) (tol : Rat) (xs ys : List Rat) (seg : String) (pupil : Shape)
+    (segments : List Shape) : St × String :=
+  -- the pupil itself: hundreds of segments; the self-check (a theorem: `fast_path_eq_inside`) is skipped for Cartesian requests
+  if seg == "-" then evalResp st mode tol xs ys pupil (mode == "polar") else
+  match parseNat? seg with
+  | none => (st, "bad-op")
+  | some i =>
+    match segments[i]? with
+    | none => (st, s!"err no-segment {segments.length}")
+    | some q => evalResp st mode tol xs ys q
 
 /-- the regular polygon's `return_with_mask=True` results -/
 def regsubResp (st : St) (mode : String) (tol : Rat) (xs ys : List Rat) (even : Bool) (r a : Rat)
@@ -245,6 +302,35 @@ def step (st : St) : List String → St × String
           match vltSegment i (vltLines se) pupil m3 with
           | none => (st, "err singular")
           | some q => evalResp st mode tol xs ys q
+    | _, _, _, _, _, _, _ => (st, "bad-op")
+  -- the hexagonally segmented pupils: lattice, dropped segments, composition, all inside the model
+  | "hexpos" :: rings :: pitch :: ap :: nsel :: sels =>
+    match parseNat? rings, parseRat? pitch, parseRat? ap, (parseNat? nsel).bind (parseSels? · sels) with
+    | some rings, some pitch, some ap, some (sels, []) =>
+      (st, s!"ok {showRatList (flatPts (selectPositions sels (hexPositions rings pitch ap)))}")
+    | _, _, _, _ => (st, "bad-op")
+  | "hexpupil" :: mode :: tol :: xs :: ys :: seg :: rings :: pitch :: ap :: loop :: hw :: obs :: spiders :: trs :: nsel :: rest =>
+    match parseRat? tol, parseRatList? xs, parseRatList? ys, parseNat? rings, [pitch, ap, hw].mapM parseRat?, parseBool? loop,
+          (if obs == "-" then some none else (parseRat? obs).map some), (parseRatList? spiders).bind quads?,
+          (parseNat? nsel).bind (parseSels? · rest) with
+    | some tol, some xs, some ys, some rings, some [pitch, ap, hw], some loop, some obs, some sp, some (sels, shapeToks) =>
+      match parseWhole? shapeToks with
+      | none => (st, "bad-op")
+      | some segment =>
+        let c0 : HexCfg := ⟨rings, pitch, ap, sels, segment, [], obs, sp, hw, loop⟩
+        match parseTrs? trs c0.positions.length with
+        | none => (st, "bad-op")
+        | some (.error n) => (st, s!"err trs-length {n}")
+        | some (.ok trs) =>
+          let c : HexCfg := { c0 with trs := trs }
+          pickSegment st mode tol xs ys seg c.shape c.segmentShapes
+    | _, _, _, _, _, _, _, _, _ => (st, "bad-op")
+  | "hicat" :: mode :: tol :: xs :: ys :: seg :: gaps :: hw :: spiders :: pitchA :: apA :: pitchB :: apB :: shapes =>
+    match parseRat? tol, parseRatList? xs, parseRatList? ys, parseBool? gaps, [hw, pitchA, apA, pitchB, apB].mapM parseRat?,
+          (parseRatList? spiders).bind quads?, parseShapes3? shapes with
+    | some tol, some xs, some ys, some gaps, some [hw, pitchA, apA, pitchB, apB], some sp, some (segA, segB, central) =>
+      let c : HicatCfg := ⟨pitchA, apA, segA, pitchB, apB, segB, central, gaps, sp, hw⟩
+      pickSegment st mode tol xs ys seg c.shape c.segmentShapes
     | _, _, _, _, _, _, _ => (st, "bad-op")
   | ["hexqr", rings] =>
     match parseNat? rings with
